@@ -25,7 +25,9 @@ RULE = (
     "estimators: seeded random DNA/RNA alignments (2-7 rows x 5-80 columns; rows derived from a common ancestor at "
     "rates 0 / 0.05 / 0.2 / 0.5 / saturated; identical rows; reduced-alphabet rows; gaps and IUPAC ambiguities either "
     "absent, sprinkled, or concentrated in one row, incl. a row that equals another one up to missing data and rows "
-    "with complementary missing data) x 6 calculators (hamming, pdist, jc69, tn93, paralinear, logdet +/- TK "
+    "with complementary missing data; plus constructed pairs sitting exactly on a domain edge — JC69 p = 3/4, each "
+    "of the three TN93 logarithm arguments = 0, paralinear/LogDet determinant = 0 in exact rational arithmetic — padded "
+    "by block replication, column/row order, base relabelling and no-data columns) x 6 calculators (hamming, pdist, jc69, tn93, paralinear, logdet +/- TK "
     "adjustment) x entry points (Alignment/ArrayAlignment.distance_matrix with drop_invalid False/True, calculator "
     "object incl. lengths/proportions tables and include_duplicates=False, fast_slow_dist app) x (as given, columns "
     "permuted, rows re-ordered). trees: random / caterpillar / balanced / star-like trees on 3-14 (thorough 3-24) tips "
@@ -54,7 +56,8 @@ ASSUMPTIONS = [
     "unobserved diagonal cell by 0.5 before normalising (as documented in the source) — the model does the same",
     "a closed form that is undefined on the counts (log of a non-positive number, 0/0, no shared column) is an invalid entry: "
     "NaN in the matrix, ArithmeticError with drop_invalid=False, or the rows dropped with drop_invalid=True",
-    "log arguments within 1e-6 of zero and paralinear/LogDet matrices with |det| < 1e-6 are not decided",
+    "TN93 log arguments and paralinear/LogDet determinants are evaluated in exact rational arithmetic: exactly zero or negative "
+    "is an invalid entry; only non-zero values below 1e-6 are not decided",
     "gnj returns a collection sorted by tree length: its first (shortest) tree is the one that must be the generating tree, "
     "and its score must be the generating tree's total length",
 ]
@@ -77,6 +80,8 @@ def gen_cases(rng, tier):
     per = 5 if tier == "quick" else 8
     for i in range(n_est):
         cases.append({"kind": "est", "seed": rng.randrange(2**32), "n": per, "moltype": "rna" if i % 3 == 2 else "dna"})
+    for i in range(16 if tier == "quick" else 80):
+        cases.append({"kind": "edge", "seed": rng.randrange(2**32), "n": 5, "first": i, "moltype": "rna" if i % 3 == 2 else "dna"})
     n_tree = 48 if tier == "quick" else 360
     for i in range(n_tree):
         cases.append({"kind": "nj", "seed": rng.randrange(2**32), "n": 8 if tier == "quick" else 11, "maxtips": 14 if tier == "quick" else 24})
@@ -122,11 +127,18 @@ class Undecided(Exception):
     """too close to the edge of the domain to demand either outcome"""
 
 
+BOUNDARY = ("log-of-exact-zero", "exactly-singular", "saturated")  # invalid because the counts sit exactly on the edge
+
+
 def _log(x):
-    if abs(x) < 1e-6:
-        raise Undecided("log-argument-near-zero")
-    if x <= 0:
+    """log of an exact rational: zero / negative are decidable (invalid); only a non-zero tiny argument is left open,
+    because the implementation's float value of the logarithm is then dominated by rounding"""
+    if x == 0:
+        raise Invalid("log-of-exact-zero")
+    if x < 0:
         raise Invalid("log-of-non-positive")
+    if x < Fraction(1, 10**6):
+        raise Undecided("log-argument-near-zero")
     return math.log(x)
 
 
@@ -150,12 +162,13 @@ def closed_form(calc, M, canon):
     if calc == "tn93":
         pur = "AG"
         pyr = "".join(c for c in canon if c not in pur)
-        f = {c: (sum(v for (a, b), v in M.items() if a == c) + sum(v for (a, b), v in M.items() if b == c)) / (2 * total) for c in canon}
+        # exact rational arithmetic, so that "argument of a logarithm is zero / negative" is decided, not estimated
+        f = {c: Fraction(sum(v for (a, b), v in M.items() if a == c) + sum(v for (a, b), v in M.items() if b == c), 2 * total) for c in canon}
         fR = f[pur[0]] + f[pur[1]]
         fY = f[pyr[0]] + f[pyr[1]]
-        P1 = (M.get((pur[0], pur[1]), 0) + M.get((pur[1], pur[0]), 0)) / total
-        P2 = (M.get((pyr[0], pyr[1]), 0) + M.get((pyr[1], pyr[0]), 0)) / total
-        Q = p - P1 - P2
+        P1 = Fraction(M.get((pur[0], pur[1]), 0) + M.get((pur[1], pur[0]), 0), total)
+        P2 = Fraction(M.get((pyr[0], pyr[1]), 0) + M.get((pyr[1], pyr[0]), 0), total)
+        Q = Fraction(diffs, total) - P1 - P2
         try:
             k1 = 2 * f[pur[0]] * f[pur[1]] / fR
             k2 = 2 * f[pyr[0]] * f[pyr[1]] / fY
@@ -165,7 +178,9 @@ def closed_form(calc, M, canon):
             a3 = 1 - Q / (2 * fR * fY)
         except ZeroDivisionError:
             raise Invalid("zero-frequency")
-        return -k1 * _log(a1) - k2 * _log(a2) - k3 * _log(a3)
+        if min(a1, a2, a3) < 0:
+            raise Invalid("log-of-non-positive")
+        return -float(k1) * _log(a1) - float(k2) * _log(a2) - float(k3) * _log(a3)
     if calc in ("paralinear", "logdet", "logdet-notk"):
         r = len(canon)
         J = [[Fraction(M.get((a, b), 0)) for b in canon] for a in canon]
@@ -175,11 +190,14 @@ def closed_form(calc, M, canon):
         s = sum(sum(row) for row in J)
         F = [[x / s for x in row] for row in J]
         dF = det(F)
-        if abs(dF) < 1e-6:
-            # exact determinant; the floating point one of the implementation is only good to ~1e-16 absolute
-            raise Undecided("singular")
+        # exact determinant: zero / negative are decided (documented: invalid); a non-zero tiny one is left open, the
+        # floating point determinant of the implementation is only good to ~1e-16 absolute
+        if dF == 0:
+            raise Invalid("exactly-singular")
         if dF < 0:
             raise Invalid("non-positive-determinant")
+        if dF < Fraction(1, 10**6):
+            raise Undecided("singular")
         fx = [sum(F[i][j] for j in range(r)) for i in range(r)]
         fy = [sum(F[i][j] for i in range(r)) for j in range(r)]
         prod = 1
@@ -314,6 +332,106 @@ def gen_alignment(rng, moltype):
     return [[nm, "".join(s)] for nm, s in rows], pattern
 
 
+# pairs sitting exactly on the edge of an estimator's domain ------------------------------------------------------
+# TN93: one logarithm argument is exactly zero (index = which term); found by search, checked again by the model at run time
+TN93_EDGE = {
+    1: [("AGCTAGCT", "GACTAGCT"), ("CCACCATC", "CGGCCAGC"), ("ATCCTGTGTT", "CTACCATGTT"), ("TGCACTTTATCT", "TGTCTTATGTCT"), ("AATCTCTGACAA", "CATCTGGGGCGT"),
+        ("CCTTTTTAAGTTCA", "CCCTTTTGAGCTCG"), ("GCACCCCACAACGAAA", "ACGCGGCACAAAAAAT"), ("ATATCATGGCTGTGAA", "CTATGGGCATAGTTGA")],
+    2: [("AGCTAGCT", "AGTCAGCT"), ("GGGATCGC", "GGGCTTGG"), ("TCGAGTGAGA", "CAGCGTAGGA"), ("AACAGGGAGCTA", "AACATGGAGTAG"), ("GCTCGCTGTTTGTA", "GCTTGTTGTCTGCA"),
+        ("CGTCGGACGCAAGT", "TTTGGGACCTGCTG"), ("ATTATAGCACCCTCCA", "ACCCGAGCTCCACCCA"), ("GCCGACTTGCCTAGAG", "GAGGAAGGGGTTAGGG")],
+    3: [("AGCTAGCT", "AGCTCTAG"), ("GTGGTCTG", "GGTGTATT"), ("GGCCAGGGCGCG", "GCCCCGGTACCC"), ("GCAAGGTTTAAC", "TCACCTTATAAA"), ("GGATAGAAAGTTCGGT", "GGAGTGATAGATAGAG"),
+        ("TGCGTAGTTGTTCCCC", "TTCCGCCTCGTTCATC"), ("CCTCTTGCCTCACTAA", "TTTCGATCCCGACTTT"), ("TAATTTCTATGTCATC", "TAAAGAAAATGCGTTG")],
+}
+EDGES = ["jc69-p-3/4", "tn93-term1", "tn93-term2", "tn93-term3", "det-zero"]
+
+
+def edge_of(calc, M, canon):
+    """which exact boundary (if any) the counts M sit on for `calc` — decided by the model itself"""
+    try:
+        closed_form(calc, M, canon)
+    except Invalid as e:
+        return str(e) if str(e) in BOUNDARY else None
+    except Undecided:
+        return None
+    return None
+
+
+def gen_edge_alignment(rng, moltype, edge):
+    """two rows exactly on `edge`, padded in ways that keep the exact ratio (whole-block replication, column order,
+    row order, base relabelling inside purines / pyrimidines, columns in which one of the two has no data), plus
+    ordinary rows"""
+    canon = CANON[moltype]
+    if edge == "jc69-p-3/4":
+        k = rng.randint(1, 15)
+        L = 4 * k
+        s1 = [rng.choice("ACGT") for _ in range(L)]
+        hit = set(rng.sample(range(L), 3 * k))
+        s2 = [rng.choice([x for x in "ACGT" if x != c]) if i in hit else c for i, c in enumerate(s1)]
+    elif edge == "det-zero":
+        # two proportional rows of the count matrix, every diagonal cell observed
+        rows = [[rng.randint(0, 3) for _ in range(4)] for _ in range(4)]
+        i, j = rng.sample(range(4), 2)
+        rows[i] = [rng.randint(1, 3) for _ in range(4)]
+        mult = rng.choice([1, 2])
+        rows[j] = [mult * x for x in rows[i]]
+        for d in range(4):
+            rows[d][d] = max(rows[d][d], 1) if d not in (i, j) else rows[d][d]
+        order = rng.sample("ACGT", 4)
+        cols = [(order[a], order[b]) for a in range(4) for b in range(4) for _ in range(rows[a][b])]
+        s1, s2 = [c[0] for c in cols], [c[1] for c in cols]
+    else:
+        a, b = rng.choice(TN93_EDGE[int(edge[-1])])
+        s1, s2 = list(a), list(b)
+        relabel = {}
+        if rng.random() < 0.5:
+            relabel.update({"A": "G", "G": "A"})
+        if rng.random() < 0.5:
+            relabel.update({"C": "T", "T": "C"})
+        s1 = [relabel.get(c, c) for c in s1]
+        s2 = [relabel.get(c, c) for c in s2]
+    m = rng.choice([1, 1, 2, 3, 5])
+    s1, s2 = s1 * m, s2 * m
+    perm = list(range(len(s1)))
+    rng.shuffle(perm)
+    s1 = [s1[k] for k in perm]
+    s2 = [s2[k] for k in perm]
+    if rng.random() < 0.5:
+        s1, s2 = s2, s1
+    # ordinary rows: diverged copies, at least one
+    others = []
+    for _ in range(rng.choice([1, 1, 2, 3])):
+        mu = rng.choice([0.1, 0.2, 0.3])
+        others.append([rng.choice("ACGT") if rng.random() < mu else c for c in rng.choice([s1, s2])])
+    # columns that do not count for the pair: one of the two has no data there
+    for _ in range(rng.choice([0, 1, 2, 5])):
+        at = rng.randrange(len(s1) + 1)
+        gap_first = rng.random() < 0.5
+        s1.insert(at, rng.choice(NONCANON) if gap_first else rng.choice("ACGT"))
+        s2.insert(at, rng.choice("ACGT") if gap_first else rng.choice(NONCANON))
+        for o in others:
+            o.insert(at, rng.choice("ACGT"))
+    rows = [["e0", s1], ["e1", s2]] + [[f"s{i}", o] for i, o in enumerate(others)]
+    rng.shuffle(rows)
+    tr = (lambda c: "U" if c == "T" else c) if moltype == "rna" else (lambda c: c)
+    return [[nm, "".join(tr(c) for c in s)] for nm, s in rows]
+
+
+def decide_edge_alignment(res, rng, moltype, edge):
+    rows = gen_edge_alignment(rng, moltype, edge)
+    canon = CANON[moltype]
+    d = dict(rows)
+    M = pair_counts(d["e0"], d["e1"], canon)
+    calcs = {"jc69-p-3/4": ["jc69"], "det-zero": ["paralinear", "logdet", "logdet-notk"]}.get(edge, ["tn93"])
+    for c in calcs:
+        if edge_of(c, M, canon) is not None:
+            res.count("exact-boundary:" + edge)
+            break
+    else:
+        res.count("exact-boundary-generator-missed:" + edge)
+    decide_alignment(res, rng, rows, moltype, "edge:" + edge)
+    return rows
+
+
 # ---------------------------------------------------------------------------
 # observing the real estimators
 
@@ -376,7 +494,8 @@ class Decider:
 
     def witness(self, what, calc, entry, variant_rows, pair=None, **detail):
         """classify by the model: is the disagreeing entry one a duplicate shortcut would get wrong?"""
-        if pair is not None and (pair[0] in self.haz or pair[1] in self.haz):
+        own_cause = what.startswith("value-where-formula-undefined/") and not what.startswith("value-where-formula-undefined/no-shared")
+        if pair is not None and (pair[0] in self.haz or pair[1] in self.haz) and not own_cause:
             total = self.E(calc)[1].get(tuple(pair), (None, None))[0]
             mech = "C15/estimator/duplicate-shortcut/" + ("no-shared-canonical-column" if total == 0 else "missing-data-differs")
         else:
@@ -410,7 +529,7 @@ class Decider:
             if kind == "invalid":
                 n_invalid += 1
                 if not isnan(g1):
-                    self.witness("value-where-formula-undefined/" + val, calc, entry, variant_rows, pair=[a, b], got=g1, exp="invalid (" + val + ")", counts=aux[(a, b)])
+                    self.witness(self.undefined_class(val, g1), calc, entry, variant_rows, pair=[a, b], got=g1, exp="invalid (" + val + ")", counts=aux[(a, b)])
                     return "bad"
                 continue
             if isnan(g1):
@@ -420,6 +539,15 @@ class Decider:
                 self.witness("value", calc, entry, variant_rows, pair=[a, b], got=g1, exp=val, counts=aux[(a, b)])
                 return "bad"
         return "with-invalid" if n_invalid else "all-valid"
+
+    @staticmethod
+    def undefined_class(why, got):
+        """mechanism class of 'a number where the closed form is undefined'; on an exact boundary the kind of number
+        tells the causes apart: inf = the logarithm of an exact 0.0 was taken, finite = rounding noise got past the guard"""
+        cls = "value-where-formula-undefined/" + why
+        if why in BOUNDARY:
+            cls += "/got-inf" if got in (float("inf"), float("-inf")) else "/got-finite"
+        return cls
 
     def expected_invalid_names(self, calc):
         E, _ = self.E(calc)
@@ -487,6 +615,23 @@ class Decider:
             names, got = dm_to_dict(dm)
             if sorted(names) != sorted(keep):
                 res.evals += 1
+                E = self.E(calc)[0]
+                # a row was kept although the model has no distance for one of its pairs: the same thing as a number
+                # where there is none; look the number up (undropped matrix) to name the class
+                kept_invalid = next(((a, b) for a in names for b in self.names if a != b and E[(a, b)][0] == "invalid" and E[(a, b)][1] != "no-shared-canonical-column"), None)
+                if kept_invalid is not None:
+                    a, b = kept_invalid
+                    try:
+                        from cogent3.evolve.fast_distance import get_distance_calculator
+
+                        c = get_distance_calculator(calc, moltype=aln.moltype, alignment=aln)
+                        c.run(show_progress=False)
+                        val = dm_to_dict(c.get_pairwise_distances())[1][(a, b)]
+                    except Exception:  # noqa: BLE001
+                        val = float("nan")
+                    if not isnan(val):
+                        self.witness(self.undefined_class(E[(a, b)][1], val), calc, entry, variant_rows, pair=[a, b], got=val, exp="both rows dropped (" + E[(a, b)][1] + ")", kept=names)
+                        return
                 extra = sorted(set(names) ^ set(keep))
                 pair = [extra[0], extra[0]] if extra and extra[0] in self.haz else None
                 if pair is None and self.haz and any(x in inv for x in self.haz):
@@ -1048,7 +1193,13 @@ def run_case(case):
             decide_nj(res, case["tree"], case["order"], case["form"], case["algo"], case.get("params"))
         return res
     rng = random.Random(case["seed"])
-    if kind == "est":
+    if kind == "edge":
+        for i in range(case["n"]):
+            edge = EDGES[(case["first"] + i) % len(EDGES)]
+            rows = decide_edge_alignment(res, rng, case["moltype"], edge)
+            if i == 0:
+                res.sample({"moltype": case["moltype"], "pattern": "edge:" + edge, "rows": rows})
+    elif kind == "est":
         for i in range(case["n"]):
             rows, pattern = gen_alignment(rng, case["moltype"])
             decide_alignment(res, rng, rows, case["moltype"], pattern)
@@ -1100,6 +1251,8 @@ def required(counters, tier):
         "pair-without-shared-column",
         "expected-invalid:saturated",
         "expected-invalid:log-of-non-positive",
+        "expected-invalid:log-of-exact-zero",
+        "expected-invalid:exactly-singular",
         "refusal:ArithmeticError",
         "moltype:dna",
         "moltype:rna",
@@ -1116,5 +1269,5 @@ def required(counters, tier):
         "trees-with-tied-joins",
         "form:dict-upper",
         "form:DistanceMatrix",
-    ] + ["calc:" + c for c in CALCS]
+    ] + ["calc:" + c for c in CALCS] + ["exact-boundary:" + e for e in EDGES]
     return [n for n in need if not counters.get(n)]
